@@ -56,7 +56,8 @@ def main():
         rc, out = sh(f"cargo test --offline --test {demo} 2>&1 | tail -40", cwd=WT)
         compiled = "error: could not compile" not in out and "error[E" not in out
         res["compiles"] = compiled
-        res["demo_with_patch"] = "fail" if compiled and ("FAILED" in out or "panicked" in out or rc != 0) else "PASS"
+        demo_ok = bool(re.search(r"test result: ok\. [1-9]", out)) and "FAILED" not in out and "error: test failed" not in out
+        res["demo_with_patch"] = "fail" if compiled and not demo_ok else "PASS"
         res["demo_with_patch_tail"] = out[-600:]
         os.remove(os.path.join(WT, "tests", demo + ".rs"))
         rc, out = sh("cargo test --workspace --no-fail-fast --offline 2>&1", cwd=WT, timeout=5400)
